@@ -18,6 +18,9 @@ use routee_compass_core::util::compact_ordered_hash_map::CompactOrderedHashMap;
 
 /// the Lean checker is applied up to this many vertices (must equal `chkLimit` in Drv/C18.lean)
 const CHK_LIMIT: usize = 48;
+/// the slots are compared with the loader's insertion order up to this many vertex-edge pairs
+/// (must equal `stdLimit` in Drv/C18.lean)
+const STD_LIMIT: usize = 4000;
 /// recursion depth of the real DFS is the length of the longest white path; keep chains well below
 /// what an 8 MiB stack takes (measured: > 60 000 frames fit) — a stack overflow is outside the model
 const MAX_CHAIN_QUICK: usize = 1500;
@@ -108,6 +111,28 @@ fn well_formed(g: &Graph) -> bool {
         }
     }
     out_seen.iter().all(|c| *c >= 1) && in_seen.iter().all(|c| *c >= 1)
+}
+
+/// are the slots exactly what the loader's insertion order gives (ids of the edges leaving / entering `v`,
+/// ascending)?  `-` above STD_LIMIT
+fn std_flag(g: &Graph) -> &'static str {
+    let n = g.vertices.len();
+    if n * g.edges.len() > STD_LIMIT {
+        return "-";
+    }
+    if g.adj.len() != n || g.rev.len() != n {
+        return "0";
+    }
+    for v in 0..n {
+        let out: Vec<usize> = g.edges.iter().enumerate().filter(|(_, e)| e.src_vertex_id.0 == v).map(|(i, _)| i).collect();
+        let inn: Vec<usize> = g.edges.iter().enumerate().filter(|(_, e)| e.dst_vertex_id.0 == v).map(|(i, _)| i).collect();
+        let a: Vec<usize> = g.adj[v].keys().map(|k| k.0).collect();
+        let r: Vec<usize> = g.rev[v].keys().map(|k| k.0).collect();
+        if a != out || r != inn {
+            return "0";
+        }
+    }
+    "1"
 }
 
 fn list_out(l: &[usize]) -> String {
@@ -271,7 +296,8 @@ fn oracle(ctx: &mut Ctx, idx: usize, n: usize, edges: &[(usize, usize)], comps: 
 
 fn run_case(ctx: &mut Ctx, idx: usize, spec: &Spec) {
     let g = build(spec);
-    let wf = well_formed(&g);
+    let wf_b = well_formed(&g);
+    let wf = format!("{} std {}", wf_b as u8, std_flag(&g));
     let n = g.vertices.len();
     let res = std::panic::catch_unwind(std::panic::AssertUnwindSafe(|| {
         (all_strongly_connected_componenets(&g), largest_strongly_connected_component(&g))
@@ -284,7 +310,7 @@ fn run_case(ctx: &mut Ctx, idx: usize, spec: &Spec) {
         49..=400 => "n_49_400",
         _ => "n_over_400",
     });
-    ctx.count(if wf { "well_formed" } else { "malformed" });
+    ctx.count(if wf_b { "well_formed" } else { "malformed" });
     let mut self_loops = 0;
     let mut seen = std::collections::HashSet::new();
     let mut parallel = 0;
@@ -312,9 +338,13 @@ fn run_case(ctx: &mut Ctx, idx: usize, spec: &Spec) {
     if deg.iter().any(|d| *d == 0) {
         ctx.count("has_isolated_vertex");
     }
+    if spec.slots.is_none() && wf.ends_with('0') {
+        // the container did not return the keys in insertion order
+        ctx.fail(idx, "graph/slot-order", "adjacency slots built by insertion are not in insertion order".to_string());
+    }
     match res {
         Err(_) => {
-            ctx.emit(idx, case_line(&g, &None), format!("wf {} panic", wf as u8));
+            ctx.emit(idx, case_line(&g, &None), format!("wf {} panic", wf));
             ctx.count("outcome_panic");
             ctx.fail(idx, "scc/panic", "the implementation panicked".to_string());
         }
@@ -332,8 +362,8 @@ fn run_case(ctx: &mut Ctx, idx: usize, spec: &Spec) {
             canon.sort();
             let mut l = raw_largest.clone();
             l.sort();
-            let chk = if wf && n <= CHK_LIMIT { "1 1" } else { "- -" };
-            let out = format!("wf {} ok {} L {} chk {}", wf as u8, comps_out(&canon), list_out(&l), chk);
+            let chk = if wf_b && n <= CHK_LIMIT { "1 1" } else { "- -" };
+            let out = format!("wf {} ok {} L {} chk {}", wf, comps_out(&canon), list_out(&l), chk);
             ctx.emit(idx, case_line(&g, &Some(canon.clone())), out);
             ctx.count("outcome_ok");
             let k = canon.len();
@@ -354,7 +384,7 @@ fn run_case(ctx: &mut Ctx, idx: usize, spec: &Spec) {
             if max > 1 && k > 1 {
                 ctx.count("mixed_component_sizes");
             }
-            if wf {
+            if wf_b {
                 if spec.edges.iter().any(|(s, d)| s != d) {
                     ctx.nontrivial(&case_line(&g, &None));
                 }
@@ -370,9 +400,9 @@ fn run_case(ctx: &mut Ctx, idx: usize, spec: &Spec) {
             let ka = a.as_ref().err().map(kind).unwrap_or("none");
             let kb = b.as_ref().err().map(kind).unwrap_or("none");
             let k = if ka == kb { ka.to_string() } else { format!("{}|{}", ka, kb) };
-            ctx.emit(idx, case_line(&g, &None), format!("wf {} err {}", wf as u8, k));
+            ctx.emit(idx, case_line(&g, &None), format!("wf {} err {}", wf, k));
             ctx.count("outcome_err");
-            if wf {
+            if wf_b {
                 ctx.fail(idx, "scc/error", format!("well-formed graph, error {}", k));
             }
         }
@@ -673,7 +703,7 @@ pub fn run(ctx: &mut Ctx) -> &'static str {
         run_case(ctx, idx, &spec);
     }
     // 3. random 4- and 5-vertex graphs in the quick tier (the thorough tier has all 4-vertex ones)
-    for _ in 0..ctx.n(1500, 6000) {
+    for _ in 0..ctx.n(6000, 60000) {
         let Some(idx) = ctx.begin() else { continue };
         let mut rng = Rng::for_case(ctx.seed, 18, idx as u64);
         let n = 4 + rng.below(2);
@@ -684,7 +714,7 @@ pub fn run(ctx: &mut Ctx) -> &'static str {
         run_case(ctx, idx, &spec);
     }
     // 4. structured random graphs
-    for _ in 0..ctx.n(1500, 20000) {
+    for _ in 0..ctx.n(6000, 40000) {
         let Some(idx) = ctx.begin() else { continue };
         let mut rng = Rng::for_case(ctx.seed, 18, idx as u64);
         let n = match rng.below(10) {
@@ -737,7 +767,7 @@ pub fn run(ctx: &mut Ctx) -> &'static str {
         run_case(ctx, idx, &spec);
     }
     // 6. malformed `Graph` values (correspondence only; the property speaks about well-formed graphs)
-    for _ in 0..ctx.n(300, 3000) {
+    for _ in 0..ctx.n(1000, 5000) {
         let Some(idx) = ctx.begin() else { continue };
         let mut rng = Rng::for_case(ctx.seed, 18, idx as u64);
         let spec = malformed(&mut rng);
